@@ -138,7 +138,7 @@ func c12Mk(log *[]string) rj.Inputs {
 }
 
 // line variants: what precedes the failing action (and whether the action itself spans lines)
-const c12NLines = 7
+const c12NLines = 10
 
 func c12Lead(k int) (pre []rj.Stmt, multi bool) {
 	switch k {
@@ -154,8 +154,14 @@ func c12Lead(k int) (pre []rj.Stmt, multi bool) {
 		return []rj.Stmt{rj.T("lead"), rj.E(&rj.Raw{Src: "\"a\" +\n \"b\"", V: "ab"}), rj.T("\n")}, false
 	case 5:
 		return []rj.Stmt{rj.T("lead ")}, true
-	default:
+	case 6:
 		return []rj.Stmt{rj.T("lead\n")}, true
+	case 7: // newlines eaten by the right trim marker of the preceding action
+		return []rj.Stmt{rj.T("lead"), rj.E(&rj.Raw{Src: "\"x\" -", V: "x"}), &rj.TrimmedText{S: "\n\n \n"}}, false
+	case 8: // newlines eaten by the failing action's own left trim marker (Src gets the marker in c12Build)
+		return []rj.Stmt{rj.T("lead\n\n\n")}, false
+	default: // a long multi-line comment and a multi-line raw string before the action
+		return []rj.Stmt{rj.T("lead"), &rj.Comment{S: "\n\n\n\n"}, rj.E(&rj.Raw{Src: "`a\nb`", V: "a\nb"}), rj.T("\n")}, false
 	}
 }
 
@@ -167,6 +173,10 @@ func c12Build(cls c12Class, file, line, nest int) *rj.Program {
 	src := cls.src
 	if multi {
 		src = "\n" + src + "\n"
+	}
+	if line == 8 {
+		src = "- " + src // {{- action}}: the whitespace before it, newlines included, is trimmed away
+		pre = []rj.Stmt{rj.T("lead"), &rj.TrimmedText{S: "\n\n\n"}}
 	}
 	core := append(append([]rj.Stmt{}, pre...), &rj.FailStmt{Src: src, Class: cls.name}, rj.T("AFTER"))
 	var lib []rj.Stmt
@@ -299,7 +309,7 @@ var c12Space = registerSpace(&e1Space{
 })
 
 func C12(r *core.Run) map[string]interface{} {
-	r.Rule = fmt.Sprintf("%d failure classes x 4 files (executed template, included file, block imported from a library, root layout of an extends chain) x 7 line layouts (newlines in text, multi-line comment, multi-line action before, the failing action itself spanning lines) x 7 nestings (top, if, second range iteration, block body, yield content, include within include, range inside if after a try); oracle: error not panic, message names the failing file and a line inside the action, writer holds exactly the reference prefix; distinct = distinct (class, position) outcomes", len(c12Classes))
+	r.Rule = fmt.Sprintf("%d failure classes x 4 files (executed template, included file, block imported from a library, root layout of an extends chain) x 10 line layouts (newlines in text, multi-line comments and raw strings, multi-line action before, newlines eaten by trim markers on either side, the failing action itself spanning lines) x 7 nestings (top, if, second range iteration, block body, yield content, include within include, range inside if after a try); oracle: error not panic, message names the failing file and a line inside the action, writer holds exactly the reference prefix; distinct = distinct (class, position) outcomes", len(c12Classes))
 	runSpace(r, c12Space)
 	return map[string]interface{}{"classes": len(c12Classes), "traces_validated_against_impl": r.Evals()}
 }
